@@ -597,6 +597,33 @@ Proof.
   cbn [core]. exact (reach_micro _ _ _ _ _ H E).
 Qed.
 
+Lemma d_fcall_reach v d ctx c : reach v (core d) -> reach v (core (d_fcall v d ctx c)).
+Proof.
+  intros H. unfold d_fcall. destruct (micro v (core d) (ACall c)) as [s r] eqn:E.
+  pose proof (reach_micro _ _ _ _ _ H E). destruct r; cbn [core]; assumption.
+Qed.
+
+Lemma d_fcall_core v d ctx c : core (d_fcall v d ctx c) = fst (micro v (core d) (ACall c)).
+Proof. unfold d_fcall. destruct (micro v (core d) (ACall c)) as [s r]. destruct r; reflexivity. Qed.
+
+Lemma fst_run_micro_cons v st a acts :
+  fst (run_micro v st (a :: acts)) = fst (run_micro v (fst (micro v st a)) acts).
+Proof. cbn. destruct (micro v st a) as [s1 r]. cbn. destruct (run_micro v s1 acts) as [s2 rs]. reflexivity. Qed.
+
+(* the compact fan-out op is nothing but its calls, performed one after the other through micro *)
+Lemma fan_is_calls v d ctx th fn gen inst sp lo n :
+  core (d_fan v d ctx th fn gen inst sp lo n)
+  = fst (run_micro v (core d) (map ACall (fan_calls th fn gen inst sp lo n))).
+Proof.
+  unfold d_fan. generalize (fan_calls th fn gen inst sp lo n) as cs. intros cs. revert d.
+  induction cs as [|c cs IH]; intros d; [reflexivity|].
+  cbn [fold_left map]. rewrite IH, fst_run_micro_cons, d_fcall_core. reflexivity.
+Qed.
+
+Lemma d_fan_reach v d ctx th fn gen inst sp lo n :
+  reach v (core d) -> reach v (core (d_fan v d ctx th fn gen inst sp lo n)).
+Proof. intros H. rewrite fan_is_calls. apply reach_run, H. Qed.
+
 Lemma run_steps_reach v steps : forall d t e f, reach v (core d) -> reach v (core (run_steps v d t e steps f)).
 Proof.
   induction steps as [|s steps IH]; intros d t e f H; cbn [run_steps].
@@ -605,6 +632,7 @@ Proof.
     + destruct (micro v (core d) (AGate t)) as [s' r] eqn:E. cbn [core]. exact (reach_micro _ _ _ _ _ H E).
     + apply IH, d_call_reach, H.
     + apply IH, d_dirty_reach, H.
+    + apply IH, d_fan_reach, H.
 Qed.
 
 Lemma d_start_reach v scripts d t : reach v (core d) -> reach v (core (d_start v scripts d t)).
@@ -636,6 +664,7 @@ Proof.
   destruct o; cbn [d_group fst]; try exact H.
   - apply IH, d_call_reach, H.
   - apply IH, d_dirty_reach, H.
+  - apply IH, d_fan_reach, H.
 Qed.
 
 (* every state the executable driver (run_case) passes through is a state the theorems cover *)
@@ -657,11 +686,148 @@ Proof.
       apply IH, d_go_reach. replace d' with (fst (d_group v d (OGo :: ops1))) by (rewrite Eg; reflexivity).
       apply d_group_reach, H.
     + apply IH, d_flush_reach, H.
+    + destruct (d_group v d (OFan thread fn gen inst sp lo n :: ops1)) as [d' ops2] eqn:Eg.
+      apply IH, d_go_reach. replace d' with (fst (d_group v d (OFan thread fn gen inst sp lo n :: ops1))) by (rewrite Eg; reflexivity).
+      apply d_group_reach, H.
 Qed.
 
 Lemma run_case_reach v scripts ops :
   reach v (core (loop v scripts (fuel_for scripts ops) ops d_init)).
 Proof. apply loop_reach. constructor. Qed.
+
+(* ================================================================ frame: what other keys do *)
+
+(* an action that concerns other keys than k: a call / dirty() with another key, the completion of a
+   task created for another key; starting and suspending bodies never touch the registry *)
+Definition off_key (v : variant) (st : state) (k : key) (a : action) : Prop :=
+  match a with
+  | ACall c | ADirty c => key_of v c <> Some k
+  | AFinish t _ => forall x, nth_error (pool st) t = Some x -> tkey x <> k
+  | _ => True
+  end.
+
+Lemma callback_other v k' t m k : k' <> k -> find k (callback v k' t m) = find k m.
+Proof.
+  intros Hn. unfold callback.
+  destruct v; try (apply find_remove_other; exact Hn);
+    (destruct (find k' m) as [u|]; [destruct (Nat.eqb u t); [apply find_remove_other; exact Hn|reflexivity]|reflexivity]).
+Qed.
+
+(* every variant: the entry of k (present or absent) is not changed by actions on other keys *)
+Lemma frame_step v st k a : off_key v st k a -> find k (reg (fst (micro v st a))) = find k (reg st).
+Proof.
+  intros Hh. destruct a as [c|c|u|u|u o]; unfold micro.
+  - cbn in Hh. destruct (key_of v c) as [k'|]; [|reflexivity].
+    destruct (find k' (reg st)) as [w|] eqn:Ef.
+    + destruct (is_running st w); [|reflexivity]. destruct (bind_of c); reflexivity.
+    + destruct (bind_of c); [|reflexivity]. cbn.
+      destruct (key_eq_dec k k') as [->|]; [congruence|reflexivity].
+  - cbn in Hh. destruct (key_of v c) as [k'|]; [|reflexivity]. cbn.
+    apply find_remove_other. congruence.
+  - unfold status_of. destruct (nth_error (pool st) u) as [y|]; [|reflexivity]. cbn.
+    destruct (tstatus y); reflexivity.
+  - unfold status_of. destruct (nth_error (pool st) u) as [y|]; [|reflexivity]. cbn.
+    destruct (tstatus y); reflexivity.
+  - cbn in Hh. destruct (nth_error (pool st) u) as [y|]; [|reflexivity].
+    destruct (tstatus y); try reflexivity. cbn. destruct (tcb y); [|reflexivity].
+    apply callback_other. exact (Hh y eq_refl).
+Qed.
+
+Fixpoint all_off_key (v : variant) (st : state) (k : key) (acts : list action) : Prop :=
+  match acts with
+  | [] => True
+  | a :: r => off_key v st k a /\ all_off_key v (fst (micro v st a)) k r
+  end.
+
+Lemma frame_run v acts : forall st k,
+  all_off_key v st k acts -> find k (reg (fst (run_micro v st acts))) = find k (reg st).
+Proof.
+  induction acts as [|a acts IH]; intros st k H; [reflexivity|].
+  destruct H as [Ha Hr]. rewrite fst_run_micro_cons, (IH _ _ Hr). apply frame_step, Ha.
+Qed.
+
+(* registering other keys - any number of them - never changes the task a key maps to *)
+Lemma frame_calls v cs : forall st k,
+  Forall (fun c => key_of v c <> Some k) cs ->
+  find k (reg (fst (run_micro v st (map ACall cs)))) = find k (reg st).
+Proof.
+  induction cs as [|c cs IH]; intros st k H; [reflexivity|].
+  inversion H as [|? ? Hc Hcs]; subst. cbn [map]. rewrite fst_run_micro_cons, (IH _ _ Hcs).
+  apply frame_step. exact Hc.
+Qed.
+
+(* calls start no body: a task that is not running is not running afterwards *)
+Lemma call_keeps_not_running v st c t :
+  is_running st t = false -> is_running (fst (micro v st (ACall c))) t = false.
+Proof.
+  intros H. unfold micro.
+  assert (Happ : forall x, tstatus x = Created -> is_running (mkSt (reg st) (pool st ++ [x])) t = false).
+  { intros x Hx. unfold is_running, status_of in *. cbn [pool].
+    destruct (nth_error (pool st ++ [x]) t) as [y|] eqn:Ey; [|reflexivity].
+    apply nth_app_inv in Ey. destruct Ey as [Ey|[_ ->]].
+    - rewrite Ey in H. exact H.
+    - cbn. rewrite Hx. reflexivity. }
+  destruct (key_of v c) as [k|]; [|exact H].
+  destruct (find k (reg st)) as [u|].
+  - destruct (is_running st u); [|exact H]. destruct (bind_of c); [|exact H]. cbn [fst]. apply (Happ (new_task k false)). reflexivity.
+  - destruct (bind_of c); [|exact H]. cbn [fst].
+    unfold is_running, status_of in *. cbn [pool].
+    destruct (nth_error (pool st ++ [new_task k true]) t) as [y|] eqn:Ey; [|reflexivity].
+    apply nth_app_inv in Ey. destruct Ey as [Ey|[_ ->]]; [rewrite Ey in H; exact H|reflexivity].
+Qed.
+
+Lemma calls_keep_not_running v cs : forall st t,
+  is_running st t = false -> is_running (fst (run_micro v st (map ACall cs))) t = false.
+Proof.
+  induction cs as [|c cs IH]; intros st t H; [exact H|].
+  cbn [map]. rewrite fst_run_micro_cons. apply IH, call_keeps_not_running, H.
+Qed.
+
+(* sharing does not depend on how many other keys are registered: whatever calls with other keys
+   happen in between (any number, every variant), the next call for k still returns t, creating nothing *)
+Lemma shared_whatever_else_is_registered v cs st c k t :
+  key_of v c = Some k -> find k (reg st) = Some t -> is_running st t = false ->
+  Forall (fun c' => key_of v c' <> Some k) cs ->
+  let st' := fst (run_micro v st (map ACall cs)) in
+  find k (reg st') = Some t /\ micro v st' (ACall c) = (st', MTask t false).
+Proof.
+  intros Hk Hf Hr Hcs st'.
+  assert (Hf' : find k (reg st') = Some t) by (unfold st'; rewrite frame_calls; assumption).
+  split; [exact Hf'|]. apply (call_shares v st' c k t Hk Hf'). apply calls_keep_not_running, Hr.
+Qed.
+
+Lemma fan_calls_forall (P : callspec -> Prop) th fn gen inst sp lo n :
+  (forall i, (i < Z.to_nat n)%nat -> P (fan_call th fn gen inst sp lo i)) ->
+  Forall P (fan_calls th fn gen inst sp lo n).
+Proof.
+  intros H. apply Forall_forall. intros c Hc. unfold fan_calls in Hc. apply in_map_iff in Hc.
+  destruct Hc as (i & <- & Hi). apply in_seq in Hi. apply H. lia.
+Qed.
+
+(* the same for the compact fan-out op of the driver, for every size n *)
+Lemma shared_after_fan v d ctx th fn gen inst sp lo n c k t :
+  key_of v c = Some k -> find k (reg (core d)) = Some t -> is_running (core d) t = false ->
+  (forall i, (i < Z.to_nat n)%nat -> key_of v (fan_call th fn gen inst sp lo i) <> Some k) ->
+  let st' := core (d_fan v d ctx th fn gen inst sp lo n) in
+  find k (reg st') = Some t /\ micro v st' (ACall c) = (st', MTask t false).
+Proof.
+  intros Hk Hf Hr Hn. cbv zeta. rewrite fan_is_calls.
+  apply shared_whatever_else_is_registered; try assumption.
+  apply fan_calls_forall. exact Hn.
+Qed.
+
+Lemma fan_call_components th fn gen inst sp lo i :
+  cthread (fan_call th fn gen inst sp lo i) = th /\ cfn (fan_call th fn gen inst sp lo i) = fn /\
+  cgen (fan_call th fn gen inst sp lo i) = gen /\ cinst (fan_call th fn gen inst sp lo i) = inst.
+Proof. unfold fan_call. destruct (Z.eqb sp 1); repeat split; reflexivity. Qed.
+
+Lemma example_fan :
+  let c := mkCall 0 0 0 0 [AInt 1] [] in
+  let d := d_call Repaired d_init (-1) c in
+  let d' := d_fan Repaired d (-1) 0 1 0 0 0 0 64 in
+  length (reg (core d')) = 65%nat /\
+  snd (micro Repaired (core d') (ACall (mkCall 0 0 0 0 [] [(N_A, AInt 1)]))) = MTask 0 false.
+Proof. vm_compute. split; reflexivity. Qed.
 
 (* ================================================================ combined statements used by props/C12.v *)
 
@@ -740,3 +906,42 @@ Lemma example_share :
   snd (run_micro Repaired init [ACall c1; ARun 0; AGate 0; ACall c2; ARun 0; AFinish 0 (Ok (VInt 7)); ACall c1])
   = [MTask 0 true; MUnit; MUnit; MTask 0 false; MUnit; MUnit; MTask 1 true].
 Proof. vm_compute. reflexivity. Qed.
+
+(* ... in particular a fan-out over another function object, generation, thread or (method) instance *)
+Lemma fan_of_other_callable_off_key v c k th fn gen inst sp lo :
+  key_of v c = Some k ->
+  (cfn c <> fn \/ cgen c <> gen \/ cthread c <> th \/ (cfn c = 4 /\ fn = 4 /\ cinst c <> inst)) ->
+  forall i : nat, key_of v (fan_call th fn gen inst sp lo i) <> Some k.
+Proof.
+  intros Hk Hd i E.
+  destruct (fan_call_components th fn gen inst sp lo i) as (T & F & G & I).
+  apply (keys_differ v c (fan_call th fn gen inst sp lo i) k k Hk E); [|reflexivity].
+  unfold differ. rewrite T, F, G, I. exact Hd.
+Qed.
+
+(* the keys of one fan-out are pairwise distinct whenever they exist: n calls register n keys *)
+Definition fan_call_at (th fn gen inst sp x : Z) : callspec :=
+  if Z.eqb sp 1 then mkCall th fn gen inst [] [(1, AInt x)] else mkCall th fn gen inst [AInt x] [].
+
+Lemma fan_call_at_keys_distinct v th fn gen inst sp x y kx ky :
+  key_of v (fan_call_at th fn gen inst sp x) = Some kx ->
+  key_of v (fan_call_at th fn gen inst sp y) = Some ky -> x <> y -> kx <> ky.
+Proof.
+  intros Hx Hy Hne E. subst ky.
+  unfold key_of, full_pos, fan_call_at in Hx, Hy.
+  destruct (Z.eqb fn 4) eqn:E4.
+  - apply Z.eqb_eq in E4. subst fn.
+    destruct (Z.eqb sp 1); cbn [cfn cgen cinst cpos ckw cthread] in Hx, Hy; destruct v;
+      vm_compute in Hx, Hy; try discriminate; congruence.
+  - pose proof E4 as E4b. apply Z.eqb_neq in E4. unfold sig_of in Hx, Hy.
+    destruct (Z.eqb sp 1); cbn [cfn cgen cinst cpos ckw cthread] in Hx, Hy; rewrite E4b in Hx, Hy;
+      destruct (Z.to_nat fn) as [|[|[|[|[|[|[|[|?]]]]]]]] eqn:En; try (exfalso; lia); destruct v;
+        vm_compute in Hx, Hy; try discriminate; congruence.
+Qed.
+
+Lemma fan_keys_distinct v th fn gen inst sp lo i j ki kj :
+  key_of v (fan_call th fn gen inst sp lo i) = Some ki ->
+  key_of v (fan_call th fn gen inst sp lo j) = Some kj -> i <> j -> ki <> kj.
+Proof.
+  intros Hi Hj Hne. apply (fan_call_at_keys_distinct v th fn gen inst sp (lo + Z.of_nat i) (lo + Z.of_nat j)); try assumption. lia.
+Qed.
